@@ -12,6 +12,17 @@ def run(res, tier, rng):
     from ural import canonicalize_url, normalize_url, fingerprint_url
 
     known = [k for k in common.load_known() if k.get("property") in ("C03", "C02") and k.get("status") == "known"]
+    from ural.facebook import is_facebook_url
+    from ural.youtube import is_youtube_url
+    from ural import ensure_protocol
+
+    def platform_branch(*xs):
+        for x in xs:
+            if isinstance(x, str) and (call(is_facebook_url, ensure_protocol(x.strip())) is True or call(is_youtube_url, ensure_protocol(x.strip())) is True):
+                return True
+        return False
+
+    has_n7 = any(k.get("id") == "F-N7" for k in known)
     nontriv = set()
     hits = {}
     urls = []
@@ -27,7 +38,9 @@ def run(res, tier, rng):
                 n1 = call(normalize_url, c, platform_aware=pa)
                 n2 = call(normalize_url, u, platform_aware=pa)
                 if n1 != n2:
-                    if q and raw_unsafe(u) and known:
+                    if pa and has_n7 and platform_branch(u, c):
+                        hits.setdefault("F-N7", "normalize_url(canonicalize_url(u), platform_aware=True) differs on a Facebook / YouTube url whose raw spelling the platform branch sees, e.g. %r" % u)
+                    elif q and raw_unsafe(u) and known:
                         hits.setdefault("F-C7", "normalize_url(canonicalize_url(u, quoted=True)) differs on a url holding a dangling '%%' or raw sub-delimiter, e.g. %r" % u)
                     else:
                         res.violation("property", "normalize_url(canonicalize_url(u)) != normalize_url(u)", input=dict(url=u, quoted=q, platform_aware=pa), impl=[c, n1, n2])
@@ -37,14 +50,18 @@ def run(res, tier, rng):
                     f1 = call(fingerprint_url, c, strip_suffix=ss, platform_aware=pa)
                     f2 = call(fingerprint_url, u, strip_suffix=ss, platform_aware=pa)
                     if f1 != f2:
-                        if q and raw_unsafe(u) and known:
+                        if pa and has_n7 and platform_branch(u, c):
+                            hits.setdefault("F-N7", "normalize_url(canonicalize_url(u), platform_aware=True) differs on a Facebook / YouTube url whose raw spelling the platform branch sees, e.g. %r" % u)
+                        elif q and raw_unsafe(u) and known:
                             hits.setdefault("F-C7", "fingerprint_url(canonicalize_url(u, quoted=True)) differs on a url holding a dangling '%%' or raw sub-delimiter, e.g. %r" % u)
                         else:
                             res.violation("property", "fingerprint_url(canonicalize_url(u)) != fingerprint_url(u)", input=dict(url=u, quoted=q, strip_suffix=ss, platform_aware=pa), impl=[c, f1, f2])
                     if not isinstance(n2, Exc):
                         f3 = call(fingerprint_url, n2, strip_suffix=ss, platform_aware=pa)
-                        if f3 != f2 and not q:
-                            res.violation("property", "fingerprint_url(normalize_url(u)) != fingerprint_url(u)", input=dict(url=u, strip_suffix=ss, platform_aware=pa), impl=[n2, f3, f2])
+                        # the pair (u, normalize_url(u)) falls under the statement only when both have the same normalized
+                        # form (normalize_url is not claimed idempotent: 'amp-amp-x.com' -> 'amp-x.com' -> 'x.com')
+                        if f3 != f2 and not q and call(normalize_url, n2, platform_aware=pa) == n2 and not (pa and has_n7 and platform_branch(u, n2)):
+                            res.violation("property", "u and normalize_url(u) have the same normalized form but different fingerprints", input=dict(url=u, strip_suffix=ss, platform_aware=pa), impl=[n2, f3, f2])
     # collision classes: spellings and irrelevant variants of one base, grouped by the weaker scheme
     for _ in range(600 if tier == "quick" else 10000):
         su = gen_su(rng)
@@ -69,7 +86,7 @@ def run(res, tier, rng):
     for fid, text in hits.items():
         res.known_hits.append((fid, text))
     res.nontrivial = nontriv
-    res.rule = ("composition equalities normalize(canonicalize(u)) = normalize(u), fingerprint(canonicalize(u)) = fingerprint(u), fingerprint(normalize(u)) = fingerprint(u) on urls of the C01 "
+    res.rule = ("composition equalities normalize(canonicalize(u)) = normalize(u), fingerprint(canonicalize(u)) = fingerprint(u), fingerprint(normalize(u)) = fingerprint(u) (when normalize(u) is its own normalized form) on urls of the C01 "
                 "grammar x quoted x platform_aware x strip_suffix; collision classes: all C02 spellings and C04 variants of a structured base grouped by canonical / normalized form, the "
                 "stronger scheme must be constant on each group. Non-trivial = urls on which the first equality holds non-vacuously.")
     res.sample(dict(url=urls[3], canonical=call(canonicalize_url, urls[3]), normalized=call(normalize_url, urls[3]), fingerprint=call(fingerprint_url, urls[3])))
